@@ -15,6 +15,9 @@ type DecoSpec struct {
 	Name   string            `json:"name,omitempty"`   // registered name, or ""
 	ByCtor bool              `json:"ctor,omitempty"`   // use the constructor function instead of the registry
 	Custom map[string]string `json:"custom,omitempty"` // field -> glyph
+	// FromNoBox: the custom decoration starts from NoBox() (which carries the unexported boxless flag) instead of
+	// an empty Decoration: after Populate it draws no rule lines but has dividers like any other
+	FromNoBox bool `json:"from_nobox,omitempty"`
 }
 
 var BuiltinDecos = []string{
@@ -55,6 +58,10 @@ func ctor(name string) decoration.Decoration {
 // Make builds the decoration; boxless is true only for the "none" decoration.
 func (d DecoSpec) Make() (deco decoration.Decoration, boxless bool) {
 	if d.Custom != nil {
+		if d.FromNoBox {
+			deco = decoration.NoBox()
+			boxless = true
+		}
 		v := reflect.ValueOf(&deco).Elem()
 		keys := make([]string, 0, len(d.Custom))
 		for k := range d.Custom {
@@ -68,7 +75,7 @@ func (d DecoSpec) Make() (deco decoration.Decoration, boxless bool) {
 			}
 		}
 		deco.Populate()
-		return deco, false
+		return deco, boxless
 	}
 	name := d.Name
 	if name == "" {
@@ -100,7 +107,7 @@ func DecoGen() *rapid.Generator[DecoSpec] {
 			for i, f := range fields {
 				m[f] = glyphs[i%len(glyphs)]
 			}
-			return DecoSpec{Custom: m}
+			return DecoSpec{Custom: m, FromNoBox: rapid.IntRange(0, 4).Draw(t, "from-nobox") == 0}
 		}
 		return DecoSpec{Name: rapid.SampledFrom(BuiltinDecos).Draw(t, "name"), ByCtor: rapid.Bool().Draw(t, "ctor")}
 	})
